@@ -15,6 +15,31 @@ import (
 	gowarc "github.com/nlnwa/gowarc/v2"
 )
 
+// failAfterMarshaler: for the record tokens listed in `failAt` the marshaler writes the first k bytes of the serialized
+// record and then fails - what happens when the record's block reader returns an error half way (k < 0: before a byte
+// is written). Every other record goes to the default marshaler untouched.
+type failAfterMarshaler struct {
+	inner  gowarc.Marshaler
+	failAt map[int]int
+}
+
+func (m *failAfterMarshaler) Marshal(w io.Writer, record gowarc.WarcRecord, maxSize int64) (gowarc.WarcRecord, int64, error) {
+	k, ok := m.failAt[tokOfId(record.WarcHeader().Get("WARC-Record-ID"))]
+	if !ok {
+		return m.inner.Marshal(w, record, maxSize)
+	}
+	var buf bytes.Buffer
+	_, _, _ = m.inner.Marshal(&buf, record, maxSize)
+	if k < 0 {
+		return nil, 0, fmt.Errorf("verif: block reader failed")
+	}
+	if k > buf.Len() {
+		k = buf.Len()
+	}
+	n, _ := w.Write(buf.Bytes()[:k])
+	return nil, int64(n), fmt.Errorf("verif: block reader failed after %d bytes", k)
+}
+
 // ---- C04 / C13: the file writer, one worker, driven through the public API; files read back with the independent
 // scanner and with gowarc's own reader (sequentially, and freshly opened at every reported offset).
 
@@ -142,7 +167,9 @@ func kWriter(args []string) (string, string) {
 	var cbs []cbRec
 	var before []string
 	infoSerial := 0
+	fm := &failAfterMarshaler{inner: gowarc.NewMarshaler(), failAt: map[int]int{}}
 	wopts := []gowarc.WarcFileWriterOption{
+		gowarc.WithMarshaler(fm),
 		gowarc.WithMaxFileSize(max), gowarc.WithCompression(comp), gowarc.WithFileNameGenerator(ng),
 		gowarc.WithMaxConcurrentWriters(1), gowarc.WithExpectedCompressionRatio(float64(rnum) / float64(rden)),
 		gowarc.WithFlush(cfg["flush"] == "t"), gowarc.WithAddWarcConcurrentToHeader(cfg["conc"] == "t"),
@@ -234,6 +261,33 @@ func kWriter(args []string) (string, string) {
 					setViol("writer-open-after-rotate", e.Name())
 				}
 			}
+			continue
+		}
+		if strings.HasPrefix(op, "F:") {
+			// F:<tok>,<kind>,<size>,<k>: a Write whose record fails to marshal after k bytes. The response must carry the
+			// error; in the model (op `failed`) the fit test and a file creation happen, no member is added
+			f := strings.Split(op[2:], ",")
+			if len(f) != 4 {
+				return "bad-op", "ok"
+			}
+			tok, _ := strconv.Atoi(f[0])
+			size, _ := strconv.Atoi(f[2])
+			k, _ := strconv.Atoi(f[3])
+			wr := &wrec{tok: tok, kind: f[1], size: size, decl: "t"}
+			if err := buildWrec(wr); err != nil {
+				return "build-error " + sanitize(err.Error()), "ok"
+			}
+			fm.failAt[tok] = k
+			declF := wr.rec.WarcHeader().Get("Content-Length")
+			rr := w.Write(wr.rec)
+			if len(rr) != 1 || rr[0].Err == nil {
+				setViol("writer-error-swallowed", fmt.Sprintf("record %d failed to marshal but the response carries no error", tok))
+			}
+			resps = append(resps, "err")
+			// the model is told: a Write that failed in the marshaler; `!n` = the file that is current afterwards (its warcinfo
+			// member, if this call created it, is measured once the files are read back)
+			modelOps = append(modelOps, fmt.Sprintf("F:%d:%s:!%d", tok, declF, len(ng.names)))
+			listing(step)
 			continue
 		}
 		if !strings.HasPrefix(op, "B:") {
@@ -383,6 +437,17 @@ func kWriter(args []string) (string, string) {
 	}
 	for i, op := range modelOps {
 		f := strings.Split(op, ":")
+		if len(f) == 4 && f[0] == "F" && strings.HasPrefix(f[3], "!") {
+			idx, _ := strconv.Atoi(f[3][1:])
+			il := int64(0)
+			for _, v := range views {
+				if v.idx == idx && v.scanErr == nil && len(v.members) > 0 && v.members[0].get("WARC-Type") == "warcinfo" {
+					il = v.members[0].length
+				}
+			}
+			modelOps[i] = fmt.Sprintf("F:%s:%s:%d", f[1], f[2], il)
+			continue
+		}
 		if len(f) == 6 && strings.HasPrefix(f[3], "@") {
 			k, _ := strconv.Atoi(f[3][1:])
 			ml, il := memberLen(all[k])
@@ -726,6 +791,13 @@ func genWriter(r *rng, n int, tier string, emit func(string, ...string)) {
 			if r.chance(1, 6) {
 				ops = append(ops, "R")
 				stat("writer-op", "rotate")
+				continue
+			}
+			if !lying && r.chance(1, 12) {
+				// a record that fails to marshal (its block reader fails): before the first byte, inside the header, inside the block
+				tok++
+				ops = append(ops, fmt.Sprintf("F:%d,%s,%d,%d", tok%90000000, pick(r, []string{"r", "h", "m"}), r.rangeInt(0, 600), pick(r, []int{-1, 0, 9, 150, 100000})))
+				stat("writer-op", "failed-record")
 				continue
 			}
 			bs := 1
